@@ -1,10 +1,10 @@
 SPECIFICATION Spec
 CONSTANTS
-  Keys = {1, 2, 3}
+  Keys = {1, 2}
   Catalogue <- CatFull
   MaxOps = 4
   DeleteStopsAt = {}
-  IndexStopsAt = {}
+  IndexStopsAt = {"Raw", "HR"}
   ReuseIds = FALSE
 INVARIANTS ForestInv PatchInv WalkIsLastVersion IndexIsFresh
 PROPERTIES OthersUntouched IdsMonotone
